@@ -29,7 +29,7 @@
 (*   supply  total supply per denom (offset so that it equals the sum of   *)
 (*           the tracked balances initially)                               *)
 (***************************************************************************)
-EXTENDS Integers, Sequences, FiniteSets, TLC, Util, Json, IOUtils
+EXTENDS Integers, Sequences, FiniteSets, TLC, Util, Json, IOUtils, CoinswapClauses
 
 CONSTANTS
   Users,        \* user accounts
@@ -368,9 +368,7 @@ PoolL(t, p) == t.supply[t.pools[p].lpt]
 C01_ShareValue(s, e, t) ==
   /\ WellFormed(s) /\ WellFormed(t)
   /\ \A p \in (DOMAIN s.pools) \cap (DOMAIN t.pools) :
-       (PoolL(s, p) > 0 /\ PoolL(t, p) > 0) =>
-         PoolS(t, p) * PoolT(t, p) * PoolL(s, p) * PoolL(s, p)
-           >= PoolS(s, p) * PoolT(s, p) * PoolL(t, p) * PoolL(t, p)
+       ShareValueW(PoolS(s, p), PoolT(s, p), PoolL(s, p), PoolS(t, p), PoolT(t, p), PoolL(t, p))
 
 (* swap legs, reconstructed from the pools' balance deltas *)
 SwapOK(s, e) == e.name = "Swap" /\ e.ok
@@ -389,13 +387,10 @@ Legs(s, e, t) ==
   THEN <<Leg(s, t, e.inDenom, e.inDenom, s.std), Leg(s, t, e.outDenom, s.std, e.outDenom)>>
   ELSE <<Leg(s, t, PoolOfPair(s, e.inDenom, e.outDenom), e.inDenom, e.outDenom)>>
 
-LegRuleOK(g, p) ==
-  (g.rin * p.feeDen + (p.feeDen - p.feeNum) * g.paid) * (g.rout - g.recv) >= g.rin * p.feeDen * g.rout
-LegInMax(g, p) ==
-  (g.rin * p.feeDen + (p.feeDen - p.feeNum) * g.paid) * (g.rout - g.recv - 1) < g.rin * p.feeDen * g.rout
-LegOutTight(g, p) ==
-  g.paid >= 2 =>
-    (g.rin * p.feeDen + (p.feeDen - p.feeNum) * (g.paid - 2)) * (g.rout - g.recv) < g.rin * p.feeDen * g.rout
+(* the arithmetic is in CoinswapClauses.tla, shared with the big-number tier *)
+LegRuleOK(g, p) == LegRuleW(g.rin, g.rout, g.paid, g.recv, p.feeNum, p.feeDen)
+LegInMax(g, p) == LegInMaxW(g.rin, g.rout, g.paid, g.recv, p.feeNum, p.feeDen)
+LegOutTight(g, p) == LegOutTightW(g.rin, g.rout, g.paid, g.recv, p.feeNum, p.feeDen)
 
 C01_LegRule(s, e, t) ==
   SwapOK(s, e) => /\ SwapKnown(s, e)
